@@ -28,6 +28,11 @@ def judge(cfg, name, args):
         res, prog = _judge(cfg, name, args, "inplace")
         if res is not None:
             res = (res[0], "augmented assignment: " + res[1])
+    if res is None:
+        # the user's global ignore_errors(True) (examples/sudoku.py): operations that are valid must give the same values
+        res, prog = _judge(cfg, name, args, "ignore")
+        if res is not None:
+            res = (res[0], "with ignore_errors(True): " + res[1])
     if res is None and len(args) == 2 and args[0][0] in "IBF" and list(args[0]) == list(args[1]):
         res, prog = _judge(cfg, name, args, "alias")
         if res is not None:
@@ -40,11 +45,13 @@ def _judge(cfg, name, args, variant):
     ts = "".join(a[0] for a in args)
     vals = [a[2] for a in args]
     cfg = dict(cfg)
-    prog = opgrid.single(cfg, name, args, inplace=variant == "inplace", alias=variant == "alias")
+    prog = opgrid.single(cfg, name, args, "ignore" if variant == "ignore" else "normal", inplace=variant == "inplace", alias=variant == "alias")
     m = ir.run_program(prog)
     cfg["_p"] = m.p
     exp = refsem.ref(name, vals, ts, cfg)
     n = len(args)
+    if variant == "ignore" and (exp is refsem.RAISES or exp is refsem.SKIP or not refsem.in_core(name, vals, ts, cfg)):
+        return None, prog        # with errors suppressed only the valid cases have a defined value
     if variant == "alias":
         n, args = 1, args[:1]
     if m.raised is not None:
@@ -74,6 +81,11 @@ def _judge(cfg, name, args, variant):
             continue
         if (g - w) % m.p:
             return ("wrong-value" + ex, "%s%r on %s returned %r, Python gives %r" % (name, tuple(vals), ts, got, want)), prog
+        # the reported value is the Python integer itself, not just something congruent to it; only the secret-exponent
+        # power (and the shifts built on it) are documented to reduce modulo the field order
+        if g != w and not (name == "pow" or (name in ("lshift", "rshift") and ts[1] in "IB")):
+            return ("wrong-value" + ex, "%s%r on %s returned %r, Python gives %r (congruent modulo the field order, but not the integer)" % (
+                name, tuple(vals), ts, got, want)), prog
     return None, prog
 
 
